@@ -13,6 +13,9 @@ import (
 	"github.com/tyler-sommer/stick/parse"
 )
 
+// maxRangeSize is the largest number of elements the range operator produces.
+const maxRangeSize = 1 << 24
+
 // Type state represents the internal state of a template execution.
 //
 // state implements the exported Context interface.
@@ -641,7 +644,11 @@ func (s *state) evalExpr(exp parse.Expr) (v Value, e error) {
 		case parse.OpBinaryFloorDiv:
 			return math.Floor(CoerceNumber(left) / CoerceNumber(right)), nil
 		case parse.OpBinaryModulo:
-			return float64(int(CoerceNumber(left)) % int(CoerceNumber(right))), nil
+			divisor := int(CoerceNumber(right))
+			if divisor == 0 {
+				return nil, errors.New("modulo by zero")
+			}
+			return float64(int(CoerceNumber(left)) % divisor), nil
 		case parse.OpBinaryPower:
 			return math.Pow(CoerceNumber(left), CoerceNumber(right)), nil
 		case parse.OpBinaryConcat:
@@ -688,9 +695,18 @@ func (s *state) evalExpr(exp parse.Expr) (v Value, e error) {
 			return CoerceNumber(left) < CoerceNumber(right), nil
 		case parse.OpBinaryRange:
 			l, r := CoerceNumber(left), CoerceNumber(right)
-			res := make([]float64, uint(math.Ceil(r-l))+1)
-			for i, k := 0, l; k <= r; i, k = i+1, k+1 {
-				res[i] = k
+			size := math.Floor(math.Abs(r-l)) + 1
+			if math.IsNaN(size) || size > maxRangeSize {
+				return nil, fmt.Errorf("range from %v to %v is not supported (more than %d elements)", l, r, maxRangeSize)
+			}
+			step := 1.0
+			if l > r {
+				// a descending range, as in Twig: 3..1 is [3, 2, 1]
+				step = -1
+			}
+			res := make([]float64, int(size))
+			for i := range res {
+				res[i] = l + float64(i)*step
 			}
 			return res, nil
 		case parse.OpBinaryBitwiseAnd:
